@@ -98,7 +98,20 @@ def install(rec: Rec):
     ForceBias.step = step
 
 
+INTENDED_POWER: dict = {}  # id(driver) -> (driver, the (n,3) power the workload asked for); the bound is judged against what was asked
+
+
+def intended_power(drv, syms, power):
+    n = len(syms)
+    if isinstance(power, dict):
+        return np.repeat(np.array([power[s] for s in syms], dtype=float)[:, None], 3, axis=1)
+    return np.broadcast_to(np.asarray(power, dtype=float), (n, 3)).copy()
+
+
 def power_array(drv):
+    it = INTENDED_POWER.get(id(drv))
+    if it is not None and it[0] is drv:
+        return it[1]
     p = drv.masses_scaling_power
     return np.broadcast_to(np.asarray(p, dtype=float), (len(drv.atoms), 3))
 
@@ -159,6 +172,7 @@ def make_fb(rng, n, forces, delta, T, power, adaptive=False, masses=None):
         drv = ForceBias(atoms, delta=delta, temperature=T, seed=seed)
     if power is not None:
         drv.masses_scaling_power = power
+        INTENDED_POWER[id(drv)] = (drv, intended_power(drv, syms, power))
     return drv
 
 
@@ -248,7 +262,8 @@ def run_hostile(spec, rec):
         elif pk == 1:
             power, pkind = float(rng.uniform(0, 1)), "float"
         elif pk == 2:
-            power, pkind = {"H": float(rng.uniform(0, 1)), "Cu": 0.5}, "dict"
+            # every element of the workload's atoms is listed (what an unlisted element gets is not part of the statement)
+            power, pkind = {"H": float(rng.uniform(0, 1)), "Cu": 0.5, "C": float(rng.uniform(0, 1)), "O": 0.0, "Au": float(rng.uniform(0, 1)), "Xe": 0.9}, "dict"
         else:
             power, pkind = rng.uniform(0, 1, (n, 3)), "array"
         adaptive = dkind == "scalar" and rng.random() < 0.15
